@@ -908,8 +908,17 @@ class PEval:
                         out = True
                     elif not (v is None or isinstance(v, (int, float, str, list, tuple, Sym))):
                         raise Undecided("isinstance(%r, %s)" % (v, t))
+                elif getattr(self, "classes", None) and t in self.classes:
+                    # a wrapper class of the repository the rule supplied: an object built from it is
+                    # one, an uninterpreted stage stands for a leaf transform and is not
+                    if isinstance(v, Obj) and getattr(v, "cls_name", None) is not None:
+                        out = out or v.cls_name == t
+                    elif not (v is None or isinstance(v, (int, float, str, list, tuple, Sym, Stage))):
+                        raise Undecided("isinstance(%r, %s)" % (v, t))
                 elif t == "Transform":
-                    if isinstance(v, Stage):
+                    if isinstance(v, Obj) and getattr(v, "cls_name", None) is not None:
+                        out = True
+                    elif isinstance(v, Stage):
                         out = True
                     elif not (v is None or isinstance(v, (int, float, str, list, tuple, Sym))):
                         raise Undecided("isinstance(%r, %s)" % (v, t))
@@ -945,6 +954,19 @@ class PEval:
                 node = self.self_obj.methods[e.func.attr]
                 sargs = [self.ev(a, env) for a in e.args]
                 return self._run_function(node, sargs, {k.arg: self.ev(k.value, env) for k in e.keywords if k.arg}, None)
+        if getattr(self, "classes", None) and isinstance(e.func, ast.Name) and e.func.id in self.classes and "__init__" in self.classes[e.func.id]:
+            try:
+                env.get(e.func.id)
+                shadowed = True
+            except Undecided:
+                shadowed = False
+            if not shadowed:
+                o = Obj({}, self.classes[e.func.id])
+                o.cls_name = e.func.id
+                cargs = [self.ev(a, env) for a in e.args]
+                ckw = {k.arg: self.ev(k.value, env) for k in e.keywords if k.arg}
+                self._run_function(self.classes[e.func.id]["__init__"], cargs, ckw, o)
+                return o
         try:
             f = self.ev(e.func, env)
         except Undecided:
@@ -962,6 +984,9 @@ class PEval:
                 args.append(self.ev(a, env))
         if isinstance(f, Closure):
             return self.call_closure(f, args)
+        if isinstance(f, Obj) and "forward" in f.methods:
+            # module(..) is module.forward(..)
+            return self._run_function(f.methods["forward"], list(args), kw, f)
         if isinstance(f, BoundMethod):
             is_static = any((isinstance(d, ast.Name) and d.id == "staticmethod") for d in f.node.decorator_list)
             return self._run_function(f.node, list(args), kw, None if is_static else f.obj)
